@@ -6,6 +6,7 @@
 import FocaModel.Proofs.SendAll
 import FocaModel.Props.C10
 import FocaModel.Props.C11
+import FocaModel.Props.C12
 namespace Foca.C04
 open Foca
 
